@@ -16,6 +16,7 @@ CLAUSES = {
     "Cl_NonNegative": "values are never negative",
     "Cl_Identity": "equal units: identity",
     "Cl_Raises": "missing component / unknown unit raises",
+    "Cl_SameObjectTwice": "one Permeance object converted to one target with two different components: each answer uses the component it was given, the object is unchanged",
     "Cl_Factors": "1 kg/(m2 h kPa) = 1/(3600 M) SI, 1 GPU = 3.35e-10 SI",
     "KnownEvent": "every recorded event is an action of the specification",
 }
